@@ -163,18 +163,35 @@ func (e *Engine) builtin(s *State, f *Frame, b *ssa.Builtin, cc *ssa.CallCommon,
 		}
 		e.access(s, mp.Obj, true, site)
 		m := s.heap[mp.Obj]
-		var out []MapEntry
+		var conds []*Term
+		var none []*Term
+		symbolic := false
 		for _, en := range m.M {
-			c := keyEqTerm(en.K, args[1])
-			if c == True {
-				continue
+			cnd := keyEqTerm(en.K, args[1])
+			conds = append(conds, cnd)
+			none = append(none, Not(cnd))
+			if !cnd.IsBoolConst() {
+				symbolic = true
 			}
-			if c != False {
-				panic(engineUnsupported("delete with symbolic key"))
-			}
-			out = append(out, en)
 		}
-		m.M = out
+		if !symbolic {
+			var out []MapEntry
+			for i, en := range m.M {
+				if conds[i] != True {
+					out = append(out, en)
+				}
+			}
+			m.M = out
+			return nil
+		}
+		// symbolic key: one branch per entry that may match, one for "absent"
+		conds = append(conds, And(none...))
+		return e.forkN(s, conds, func(st *State, i int) {
+			mm := st.heap[mp.Obj]
+			if i < len(mm.M) {
+				mm.M = append(append([]MapEntry{}, mm.M[:i]...), mm.M[i+1:]...)
+			}
+		})
 	case "min", "max":
 		acc := args[0].(*Term)
 		_, signed, _ := width(cc.Args[0].Type())
@@ -189,6 +206,43 @@ func (e *Engine) builtin(s *State, f *Frame, b *ssa.Builtin, cc *ssa.CallCommon,
 		set(acc)
 	case "recover":
 		set(&IfaceV{})
+	case "SliceData": // unsafe.SliceData
+		sl := args[0].(*SliceV)
+		if sl.Obj == 0 {
+			set(&Ptr{})
+		} else {
+			set(&Ptr{Obj: sl.Obj, Path: []PathElem{{Idx: sl.Off}}})
+		}
+	case "StringData": // unsafe.StringData: pointer into a fresh read-only copy (or the aliased object)
+		sv := args[0].(*StringV)
+		if sv.Alias != 0 {
+			set(&Ptr{Obj: sv.Alias, Path: []PathElem{{Idx: CI(0)}}})
+			s.imprec = append(s.imprec, "unsafe.StringData of an aliased string at "+site)
+		} else {
+			id := s.newObj(&Obj{Kind: kBytes, B: sv.B})
+			set(&Ptr{Obj: id, Path: []PathElem{{Idx: CI(0)}}})
+		}
+	case "String": // unsafe.String(ptr, len): shares the memory of the object ptr points into
+		p := args[0].(*Ptr)
+		n := e.toInt(args[1].(*Term), cc.Args[1].Type())
+		if p.Obj == 0 {
+			set(&StringV{B: EmptyBytes()})
+		} else {
+			off := CI(0)
+			if len(p.Path) > 0 && p.Path[0].Idx != nil {
+				off = p.Path[0].Idx
+			}
+			o := s.heap[p.Obj]
+			set(&StringV{B: SliceBytes(o.B, off, Add(off, n)), Alias: p.Obj})
+		}
+	case "Slice": // unsafe.Slice(ptr, len)
+		p := args[0].(*Ptr)
+		n := e.toInt(args[1].(*Term), cc.Args[1].Type())
+		off := CI(0)
+		if len(p.Path) > 0 && p.Path[0].Idx != nil {
+			off = p.Path[0].Idx
+		}
+		set(&SliceV{Obj: p.Obj, Off: off, Len: n, Cap: n})
 	case "print", "println":
 	case "clear":
 		switch v := args[0].(type) {
